@@ -16,6 +16,8 @@ def own_tree(nd: tg.Node, v: t.Any) -> t.Any:
     if k == 'ok':
         return None
     if k == 'ce':
+        if contains_itself(r.tree):
+            return r.tree       # (not a tree at all: printing it would never end; the callers report it)
         try:
             str(r)      # users look at the message first; looking must not change the tree that is inspected afterwards
         except Exception:
@@ -109,6 +111,37 @@ def walk_leaves(tree: t.Any, path: t.Tuple[t.Any, ...] = (), in_sum: bool = Fals
             yield from walk_leaves(c, (*path, k), in_sum)
     else:
         yield (path, tree, in_sum)
+
+
+def contains_itself(tree: t.Any) -> bool:
+    """Is some node of the tree among its own descendants?  (A tree is finite; the library's own printing, and every walk below,
+    would run away on one that is not.  Iterative, each node visited once.)"""
+    from pane.errors import SumErrorNode, ProductErrorNode
+    done: t.Set[int] = set()
+    onpath: t.Set[int] = set()
+    stack: t.List[t.Tuple[t.Any, bool]] = [(tree, False)]
+    while stack:
+        (n, leaving) = stack.pop()
+        if leaving:
+            onpath.discard(id(n))
+            done.add(id(n))
+            continue
+        if id(n) in onpath:
+            return True
+        if id(n) in done:
+            continue
+        onpath.add(id(n))
+        stack.append((n, True))
+        kids: t.List[t.Any] = []
+        if isinstance(n, SumErrorNode):
+            kids = list(n.children)
+        elif isinstance(n, ProductErrorNode):
+            kids = list(n.children.values())
+        for c in kids:
+            if id(c) in onpath:
+                return True
+            stack.append((c, False))
+    return False
 
 
 def tree_stats(tree: t.Any) -> t.Dict[str, int]:
